@@ -5,10 +5,15 @@
 
 #include <atomic>
 #include <functional>
+#include <set>
 #include <unordered_set>
 #include <vector>
 
+// the progress loop of parallel_range sleeps a full second between polls: shorten it for the stress runs
+#include <unistd.h>
+#define usleep(x) (::usleep)(200)
 #include <phosg/Tools.hh>
+#undef usleep
 
 #include "verif.hh"
 
@@ -20,8 +25,11 @@ using namespace verif;
 //   a true callback as well, so that two hits are reported at the same moment - the situation in which unsynchronised
 //   access to the shared result or cursor becomes a data race ThreadSanitizer can see. The wait only steers timing;
 //   the oracle does not depend on it.
+//   progress: 1 = pass a (counting) progress function instead of nullptr
+//   big: k > 0 = the range has k * 2^32 values (variant 0) or blocks (variant 1) and `count` is ignored; the callback
+//        returns true at offset hit_rem (< 4096), which ends the job long before the range is exhausted
 struct Cfg {
-  uint64_t variant, type, threads, start, count, block, hit_mod, hit_rem, reps, rendezvous;
+  uint64_t variant, type, threads, start, count, block, hit_mod, hit_rem, reps, rendezvous, progress, big;
 };
 static const char* kVariant[3] = {"range", "blocks", "multi"};
 static const char* kType[5] = {"u8", "u16", "u32", "u64", "s64"};
@@ -31,7 +39,11 @@ static void run_typed(const Cfg& c) {
   typedef std::make_unsigned_t<IntT> U;
   std::string tag = cat(kVariant[c.variant], ":", kType[c.type]);
   IntT start = static_cast<IntT>(c.start);
-  IntT end = static_cast<IntT>(static_cast<U>(start) + static_cast<U>(c.count));
+  const uint64_t count = c.big ? (c.big << 32) * (c.variant ? c.block : 1) : c.count;
+  IntT end = static_cast<IntT>(static_cast<U>(start) + static_cast<U>(count));
+  std::atomic<uint64_t> progress_calls(0);
+  std::function<void(IntT, IntT, IntT, uint64_t)> progress;
+  if (c.progress) progress = [&](IntT, IntT, IntT, uint64_t) { progress_calls.fetch_add(1); };
   for (uint64_t rep = 0; rep < c.reps; rep++) {
     // one private log per thread number: if two workers ever shared a thread_num, TSan reports the race
     std::vector<std::vector<uint64_t>> logs(c.threads);
@@ -56,7 +68,7 @@ static void run_typed(const Cfg& c) {
         while (arrived.load() < 2 && phosg::now() - t0 < 1000) {
         }
       }
-      bool hit = c.hit_mod != 0 && (off % c.hit_mod) == c.hit_rem;
+      bool hit = c.big ? (off == c.hit_rem) : (c.hit_mod != 0 && (off % c.hit_mod) == c.hit_rem);
       if (hit && c.rendezvous && c.threads >= 2) {
         inside_hit.fetch_add(1);
         uint64_t t0 = phosg::now();
@@ -68,17 +80,33 @@ static void run_typed(const Cfg& c) {
     uint64_t ret_off = 0;
     std::vector<uint64_t> ret_set;
     if (c.variant == 0) {
-      IntT r = phosg::parallel_range<IntT>(fn, start, end, c.threads, nullptr);
+      IntT r = phosg::parallel_range<IntT>(fn, start, end, c.threads, progress);
       ret_off = static_cast<uint64_t>(static_cast<U>(static_cast<U>(r) - static_cast<U>(start)));
     } else if (c.variant == 1) {
-      IntT r = phosg::parallel_range_blocks<IntT>(fn, start, end, static_cast<IntT>(c.block), c.threads, nullptr);
+      IntT r = phosg::parallel_range_blocks<IntT>(fn, start, end, static_cast<IntT>(c.block), c.threads, progress);
       ret_off = static_cast<uint64_t>(static_cast<U>(static_cast<U>(r) - static_cast<U>(start)));
     } else {
-      auto r = phosg::parallel_range_blocks_multi<IntT>(fn, start, end, static_cast<IntT>(c.block), c.threads, nullptr);
+      auto r = phosg::parallel_range_blocks_multi<IntT>(fn, start, end, static_cast<IntT>(c.block), c.threads, progress);
       for (IntT v : r) ret_set.push_back(static_cast<uint64_t>(static_cast<U>(static_cast<U>(v) - static_cast<U>(start))));
       std::sort(ret_set.begin(), ret_set.end());
     }
     VCHECK(!bad_thread_num, cat("thread-num:", tag), "callback received thread_num >= num_threads");
+    if (c.big) {
+      // huge range with an early hit: nothing outside, nothing twice, the hit is found and returned
+      std::set<uint64_t> seen_big;
+      uint64_t hits_big = 0;
+      for (auto& l : logs)
+        for (uint64_t off : l) {
+          VCHECK(off < count, cat("outside-range:", tag), "callback invoked for start+", off, " but the range has ", count, " values");
+          VCHECK(seen_big.insert(off).second, cat("invoked-twice:", tag), "callback invoked twice for start+", off);
+          if (off == c.hit_rem) hits_big++;
+        }
+      VCHECK(hits_big > 0, cat("hit-never-invoked:", tag), "a range of ", count, " values with a hit at start+", c.hit_rem, ": the callback was never invoked for it (", seen_big.size(), " invocations in all)");
+      VCHECK(ret_off == c.hit_rem, cat("hit-result:", tag), "returned start+", ret_off, " but the only value for which the callback returned true is start+", c.hit_rem);
+      ctx().cls("runs-over-k*2^32-values-or-blocks");
+      ctx().cls("runs");
+      continue;
+    }
     std::vector<uint8_t> seen(c.count, 0);
     uint64_t hits = 0, busy_threads = 0;
     for (auto& l : logs) {
@@ -90,6 +118,7 @@ static void run_typed(const Cfg& c) {
         if (c.hit_mod != 0 && (off % c.hit_mod) == c.hit_rem) hits++;
       }
     }
+    if (c.progress) ctx().cls("runs-with-progress-function");
     bool any_hit_in_range = c.hit_mod != 0 && c.hit_rem < c.count;
     if (c.variant == 2) {
       std::vector<uint64_t> expect;
@@ -113,8 +142,10 @@ static void run_typed(const Cfg& c) {
 }
 
 static void run_stress(const Case& k) {
-  Cfg c{k.u(0), k.u(1), k.u(2), k.u(3), k.u(4), k.u(5), k.u(6), k.u(7), k.u(8), k.n.size() > 9 ? k.u(9) : 0};
+  Cfg c{k.u(0), k.u(1), k.u(2), k.u(3), k.u(4), k.u(5), k.u(6), k.u(7), k.u(8), k.n.size() > 9 ? k.u(9) : 0, k.n.size() > 10 ? k.u(10) : 0, k.n.size() > 11 ? k.u(11) : 0};
   if (c.variant > 2 || c.type > 4 || c.threads < 1 || c.threads > 16 || c.count > 5000 || c.reps > 1000) throw std::logic_error("configuration outside the generated domain");
+  if (c.big && (c.big > 4 || c.type < 3 || c.variant == 2 || c.block > 64 || c.block == 0 || c.hit_rem >= 4096)) throw std::logic_error("big-range configuration outside the generated domain");
+  if (c.big) c.count = 0;
   if (c.variant != 0 && (c.block == 0 || c.count % c.block)) throw std::logic_error("block must divide the range");
   switch (c.type) {
     case 0: run_typed<uint8_t>(c); break;
@@ -171,8 +202,22 @@ static Case gen_stress() {
     c.rendezvous = 1;
     c.reps = 6;
   }
+  c.progress = vg::chance(1, 5) ? 1 : 0;
+  c.big = 0;
+  if (vg::chance(1, 12)) {
+    c.big = 1 + vg::below(4);
+    c.variant = vg::below(2);
+    c.type = 3 + vg::below(2);
+    c.block = c.variant ? vg::pick<uint64_t>({1, 2, 16, 64}) : 1;
+    c.hit_mod = 1;
+    c.hit_rem = vg::below(4096);
+    c.rendezvous = 0;
+    c.count = 0;
+    c.start = (c.type == 4 && vg::coin()) ? static_cast<uint64_t>(-static_cast<int64_t>(vg::below(100000))) : vg::below(100000);
+    c.reps = 3;
+  }
   Case k("stress");
-  k.N(c.variant).N(c.type).N(c.threads).N(c.start).N(c.count).N(c.block).N(c.hit_mod).N(c.hit_rem).N(c.reps).N(c.rendezvous);
+  k.N(c.variant).N(c.type).N(c.threads).N(c.start).N(c.count).N(c.block).N(c.hit_mod).N(c.hit_rem).N(c.reps).N(c.rendezvous).N(c.progress).N(c.big);
   return k;
 }
 
